@@ -379,3 +379,53 @@ def report(prop, tier, seed, level, tot, wall, rule, assumptions, extra_cov=None
     if mach:
         return 2
     return 1 if viol else 0
+
+
+# ----------------------------------------------------------------------------- level-synchronous parallel BFS
+
+def bfs_levels(modname, init, depth, jobs, seed, max_states=None, log=None):
+    """Explicit-state BFS whose frontier is expanded in parallel, level by level.
+
+    init: list of (canon, blob) ; the module provides expand(case) with
+    case = {'blob': bytes, 'path': [events]} returning a dict
+       {'succ': [(event, canon, blob or None)], 'pack': Acc.pack()}
+    (blob None = observation / refused event: a transition without a new state).
+    States are de-duplicated on 'canon' by the master.  Returns (stats, merged pack)."""
+    seen = {}
+    frontier = []
+    for canon, blob in init:
+        if canon not in seen:
+            seen[canon] = ()
+            frontier.append({'blob': blob, 'path': []})
+    transitions = 0
+    packs = []
+    capped = False
+    depth_completed = 0
+    per_level = []
+    for d in range(depth):
+        if not frontier:
+            break
+        res = pmap(modname, 'expand', frontier, jobs, seed, chunksize=max(1, len(frontier) // (jobs * 8)))
+        nxt = []
+        for case, r in zip(frontier, res):
+            if 'succ' not in r:      # uncaught exception inside expand -> already a failure pack
+                packs.append(r)
+                continue
+            packs.append(r['pack'])
+            for ev, canon, blob in r['succ']:
+                transitions += 1
+                if blob is None or canon in seen:
+                    continue
+                if max_states is not None and len(seen) >= max_states:
+                    capped = True
+                    continue
+                seen[canon] = tuple(case['path']) + (ev,)
+                nxt.append({'blob': blob, 'path': case['path'] + [ev]})
+        depth_completed = d + 1
+        per_level.append(len(nxt))
+        if log:
+            log('level %d: %d new states, %d transitions so far' % (d + 1, len(nxt), transitions))
+        frontier = nxt
+    stats = {'states': len(seen), 'transitions': transitions, 'depth_completed': depth_completed,
+             'new_states_per_level': per_level, 'capped': capped, 'frontier_left': len(frontier)}
+    return stats, merge_packs(packs)
